@@ -179,7 +179,7 @@ def run(tier):
     with Work('c09') as work:
         docs, names = seed_docs(hs, A, tier, rng)
         extra = [{'num': 1, 'esc': 2, 'frac': 1, 'dt': 3, 'coord': 2, 'sep': 2, 'nl': 1, 'mark': 2, 'list': 2,
-                  'empty': 1, 'gap': 2, 'fin': 2}] if tier != 'quick' else []
+                  'empty': 1, 'gap': 2, 'fin': 2, 'ng': 2}] if tier != 'quick' else []
         write_consts(work, 'ZwCat', {'Docs': docs, 'ExtraStyles': extra})
         g = run_tlc(work, 'Gen_ZincMut.tla', 'Gen_ZincMut.cfg', workers=NCPU, lib=work.dir, xmx='8g', timeout=3000)
         rep.tlc('mutant generation', g)
